@@ -7,7 +7,7 @@ ROOT = os.path.dirname(os.path.dirname(os.path.abspath(__file__)))
 CHECKS = {
  "C11": ("ipfilter", "exploration",
    "reference-model monitor (set of prefixes) over exhaustive + seeded operation sequences, boundary probes in 4- and 16-byte form",
-   "Runs the real IPv4Filter next to a set-of-prefixes model over all sequences of up to 4 (quick) / 6 (thorough) operations of a 12-op alphabet, replayed from empty and after 254/255/256 filler adds (list mode, across the migration, map mode, with already-removed slots), plus seeded random sequences of 250-650 ops over a small universe; after every op the first/last address of every touched range and its outside neighbours are probed in both address forms. Held-on-what-was-observed, not a proof.",
+   "Runs the real IPv4Filter next to a set-of-prefixes model over all sequences of up to 4 (quick) / 5 (thorough) operations of a 12-op alphabet, replayed from empty and after 254/255/256 filler adds (list mode, across the migration, map mode, with already-removed slots), plus seeded random sequences of 250-650 ops over a small universe; after every op the first/last address of every touched range and its outside neighbours are probed in both address forms. Held-on-what-was-observed, not a proof.",
    "Trusts the model (30 lines) and net.IPNet construction; sequences beyond the enumerated length are only sampled.", "§3 C11"),
  "C04": ("route", "exploration",
    "reference-model monitor (router written from the statement) + invocation counter + recover(), exhaustive small-scope tables x paths, seeded random large tables",
